@@ -1094,6 +1094,31 @@ def add_branch_gadget(rnd, spec):
     spec['branch_gadget'] = {'outputs': out, 'switch': sw}
 
 
+def add_alias_gadget(rnd, spec):
+    """a formula that reads a range on one sheet and single cells with coordinates inside that
+    rectangle on other sheets (its own among them); sheets Al1 / Al2, formulas in row 65"""
+    sheet = next(s_ for s_ in spec['sheets'] if s_ != spec.get('data_sheet'))
+    if 'Al1' in spec['sheets']:
+        return
+    spec['sheets'] += ['Al1', 'Al2']
+    cells = spec['cells']
+    rng = []
+    for r in (1, 2, 3):
+        for c in (1, 2):
+            a = mk('Al1', r, c)
+            cells.append({'a': a, 'v': rnd.choice((1, 2, 3, 5, 0.5))})
+            rng.append(a)
+    k1, k2 = mk('Al2', 1, 1), mk('Al2', 2, 2)
+    cells.append({'a': k1, 'v': rnd.choice((2, 4, 10))})
+    cells.append({'a': k2, 'f': '=A1*3', 'p': [k1], 'd': []})          # Al2!B2 inside A1:B3
+    own = mk(sheet, 65, 1)
+    cells.append({'a': own, 'v': rnd.choice((1, 7))})
+    f1, f2 = mk(sheet, 65, 2), mk(sheet, 65, 3)
+    cells.append({'a': f1, 'f': '=SUM(Al1!A1:B3)*Al2!B2', 'p': rng + [k2], 'd': []})
+    cells.append({'a': f2, 'f': '=SUM(Al1!A1:B3,Al2!A1)+B65', 'p': rng + [k1, f1], 'd': []})
+    spec.setdefault('gadget', []).extend([f1, f2, k2])
+
+
 def add_compare_gadget(rnd, spec):
     """operators applied to a whole range whose cells hold numbers and logicals that are equal
     in Python and not in Excel (1 / TRUE, 0 / FALSE); rows 70-72 of the first formula sheet"""
